@@ -153,14 +153,16 @@ func impliedTupleType(dec *msgpack.Decoder) (cty.Type, error) {
 		return cty.EmptyTuple, nil
 	}
 
-	etys := make([]cty.Type, l)
+	// (not sized by l up front: the header is only a claim until the members
+	// have actually been read)
+	etys := make([]cty.Type, 0, allocHint(l))
 
 	for i := 0; i < l; i++ {
 		ety, err := impliedType(dec)
 		if err != nil {
 			return cty.DynamicPseudoType, err
 		}
-		etys[i] = ety
+		etys = append(etys, ety)
 	}
 
 	return cty.Tuple(etys), nil
